@@ -584,6 +584,8 @@ def install(root, mounts, uid, plan, logfd):
                 return ''.join(self.r.choice(self.chars) for _ in range(8))
             next = __next__
         tempfile._name_sequence = _Names(plan['random_seed'])
+        # ... and the pid, which code likes to put into scratch names
+        os.getpid = lambda: 4242
     if plan.get('audit', True):
         sys.addaudithook(sh.audit_hook)
     return sh
